@@ -170,6 +170,23 @@ var extTypes = []ExtType{
 	{"Chapter", []string{"Dossier"}, nil, false},
 	{"Folio", []string{"Chapter", "as:Object", "Auditable"}, []string{"Gamma"}, false},
 	{"Leaflet", []string{"Folio", "Bulletin"}, nil, false},
+	// four levels across the vocabulary border: as:Activity has 'object', as:IntransitiveActivity is
+	// denied it, as:Arrive is its child, Rho and Tau come below that
+	{"Rho", []string{"as:Arrive"}, nil, false},
+	{"Tau", []string{"Rho"}, nil, false},
+	// disjointness declared at two levels of one family meeting multiple inheritance:
+	// Ay disjoint Pea, Bee disjoint Pea1 (Pea1, Pea2 < Pea), Tee < [Ay, Bee]
+	{"Pea", []string{"as:Object"}, nil, false},
+	{"Peaone", []string{"Pea"}, nil, false},
+	{"Peatwo", []string{"Pea"}, nil, false},
+	{"Ay", []string{"as:Object"}, []string{"Pea"}, false},
+	{"Bee", []string{"as:Object"}, []string{"Peaone"}, false},
+	{"Tee", []string{"Ay", "Bee"}, nil, false},
+	// several one-sided disjointWith declarations naming own types that are declared LATER in the file
+	{"Upsilon", []string{"as:Object"}, []string{"Phi", "Chi", "Psi"}, false},
+	{"Phi", []string{"as:Object"}, nil, false},
+	{"Chi", []string{"Phi"}, nil, false},
+	{"Psi", []string{"as:Object"}, nil, false},
 	// a typeless type without parents, as the shipped PublicKey is
 	{"Omicron", nil, nil, true},
 }
@@ -313,6 +330,9 @@ func StackedVocabs() ExtVocab {
 		{"Xnote", []string{"as:Object"}, []string{"as:Activity"}, false},
 		{"Xplace", []string{"as:Place"}, nil, false},
 		{"Xlink", []string{"as:Link"}, nil, false},
+		// two parents from different vocabularies, the own one (Xnote) having further children in the
+		// vocabulary stacked on top
+		{"Xmemo", []string{"as:Note", "Xnote"}, nil, false},
 	}, Props: []ExtProp{
 		{Name: "xfloor", Domain: []string{"Xplace"}, Range: []string{"xsd:nonNegativeInteger"}, Functional: true},
 		{Name: "xremark", Domain: []string{"Xnote", "as:Link"}, Range: []string{"rdf:langString", "xsd:string"}},
